@@ -116,7 +116,7 @@ func ProfileContract(avoid map[string]string) *Profile {
 	return &Profile{Name: "contract", MaxDataMessages: 3, MaxFields: 4, Nested: true, Maps: true, Oneofs: true,
 		Optionals: true, Repeateds: true, Enums: true, Timestamps: true, MessageFields: true,
 		MaxServices: 2, MaxMethods: 3, Transport: true, BasePaths: true, Headers: true, QueryOnBody: true,
-		Stratified: true, Features: Features(AllFeatures...), AnnotatedNested: true, AnnotateAnyCard: true, MultiWordChild: true, ContractStrict: true, Avoid: avoid}
+		Stratified: true, Features: Features(AllFeatures...), AnnotatedNested: true, AnnotateAnyCard: true, MultiWordChild: true, ContractStrict: true, WrapperSiblings: true, Avoid: avoid}
 }
 
 // ProfileInterop: cross-language calls (TypeScript <-> Go).
